@@ -337,6 +337,43 @@ pub fn examples(th: bool) -> Vec<Example> {
                 Case { text, expect: match best { Some(b) => Expect::Value(b as f64), None => Expect::Infeasible }, descr: format!("{} nodes, precedences {:?}, matrix {:?}", n, prec, d) }
             }) });
     }
+    // ---------------------------------------------------------------- sop: neighbourhoods of hand-written instances
+    {
+        // deviation bounding applied to inputs: three hand-written matrices (7, 8 and 8 nodes; the first is the input of D12, the
+        // second the demonstration of the seeded change C16vr6 -- merged states with mandatory AND optional jobs need >= 8 nodes)
+        // and ALL matrices at Hamming distance 1 (one distance raised or lowered by one; precedences untouched)
+        let seeds: Vec<Vec<Vec<i64>>> = vec![
+            vec![vec![0, 15, 19, 14, 1, 16, 1000000], vec![-1, 0, 1, 3, -1, 9, 0], vec![-1, 1, 0, 8, 4, 13, 9], vec![-1, 17, 3, 0, 8, -1, 16], vec![-1, 10, 8, 15, 0, 9, 7], vec![-1, 3, 5, 13, 1, 0, 13], vec![-1, -1, -1, -1, -1, -1, 0]],
+            vec![vec![0, 2, 1, 2, 1, 2, 1, 0], vec![-1, 0, 1, 0, 0, 1, 1, 0], vec![-1, 2, 0, 2, -1, -1, 2, 0], vec![-1, 2, 0, 0, 1, 0, 0, 1], vec![-1, 2, 2, 1, 0, -1, 0, 1], vec![-1, 1, 2, 0, 2, 0, 0, 2], vec![-1, -1, 2, 0, 0, 0, 0, 2], vec![-1, -1, -1, -1, -1, -1, -1, 0]],
+            vec![vec![0, 3, 1, 2, 2, 1, 3, 9], vec![-1, 0, 2, 1, 3, 2, 1, 2], vec![-1, 1, 0, 3, 1, -1, 2, 1], vec![-1, 2, 2, 0, 1, 3, -1, 3], vec![-1, 3, 1, 2, 0, 1, 2, 2], vec![-1, 1, 3, 1, 2, 0, 3, 1], vec![-1, 2, 1, 3, 1, 2, 0, 2], vec![-1, -1, -1, -1, -1, -1, -1, 0]],
+        ];
+        // the entries which may change: i -> j for i != j, j != 0, i != n-1, not a precedence (-1), not the 0 -> n-1 arc
+        let slots: Vec<Vec<(usize, usize)>> = seeds.iter().map(|d| { let n = d.len(); (0..n).flat_map(|i| (0..n).map(move |j| (i, j))).filter(|(i, j)| i != j && *j != 0 && *i != n - 1 && d[*i][*j] >= 0 && !(*i == 0 && *j == n - 1)).collect() }).collect();
+        let sizes: Vec<u64> = slots.iter().map(|s| 1 + 2 * s.len() as u64).collect();
+        let count = sizes.iter().sum();
+        ex.push(Example { name: "sop@near", scope: "three hand-written matrices (7, 8, 8 nodes, with precedences) and all matrices at Hamming distance 1 from them (one distance +1 or -1, never below 0)".to_string(), count, file_flag: None, tsptw_output: false, extra: vec![],
+            arg_sets: argsets(&w4, tt, "-w", "-t"),
+            gen: Box::new(move |mut idx| {
+                let mut k = 0;
+                while idx >= sizes[k] { idx -= sizes[k]; k += 1; }
+                let mut d = seeds[k].clone();
+                let n = d.len();
+                if idx >= 1 { let (i, j) = slots[k][((idx - 1) / 2) as usize]; if (idx - 1) % 2 == 0 { d[i][j] += 1; } else { d[i][j] = (d[i][j] - 1).max(0); } }
+                // oracle: subset DP over (visited set, last) from node 0 to node n-1, precedence j before i whenever d[i][j] == -1
+                let full = 1usize << n;
+                let inf = i64::MAX / 4;
+                let mut best = vec![vec![inf; n]; full];
+                best[1][0] = 0;
+                for set in 1..full { for last in 0..n { let c = best[set][last]; if c >= inf { continue; }
+                    for nx in 0..n { if set & (1 << nx) != 0 || d[last][nx] < 0 { continue; }
+                        // every node which must precede nx is already visited
+                        if (0..n).any(|q| q != nx && d[nx][q] == -1 && set & (1 << q) == 0) { continue; }
+                        let ns = set | (1 << nx); let v = c + d[last][nx]; if v < best[ns][nx] { best[ns][nx] = v; } } } }
+                let b = best[full - 1][n - 1];
+                let text = format!("NAME: near\nTYPE: SOP\nEDGE_WEIGHT_SECTION\n{}\n{}EOF\n", n, d.iter().map(|r| r.iter().map(|x| x.to_string()).collect::<Vec<_>>().join(" ") + "\n").collect::<String>());
+                Case { text, expect: if b >= inf { Expect::Infeasible } else { Expect::Value(b as f64) }, descr: format!("{} nodes, matrix {:?}", n, d) }
+            }) });
+    }
     // ---------------------------------------------------------------- tsptw
     {
         // n nodes (0 = depot), distances closed under shortest paths, windows, depot horizon.  Three blocks:
